@@ -646,6 +646,8 @@ static int ec_quit(char *loc, char *cmd, char *arg, char *txt)
 					ex_show(err);
 					return 0;
 				}
+				lbuf_saved(b->lb, 0);
+				b->mtime = mtime(b->path);
 			}
 		}
 	}
